@@ -73,7 +73,71 @@ def linearizable(init, maxp, ops, rets, final_pages, schedule):
 
 
 def op_args(ops):
-    return [("g%d" % d) if k == "g" else "s" for k, d in ops]
+    return [("%s%d" % (k, d)) if k in ("g", "o") else "s" for k, d in ops]
+
+
+def interleavings(segs):
+    """all distinct interleavings of segs[t] segments of thread t, as digit strings"""
+    base = []
+    for t, n in enumerate(segs):
+        base += [str(t)] * n
+    return sorted(set("".join(p) for p in itertools.permutations(base)))
+
+
+def observer_part(chk, exe, have_driver, tier, broken, hist):
+    """Histories grower ∥ observer on a shared memory: the observer executes memory.size and, as soon as it sees the grown
+    size, stores a marker byte into the newest page, lets the others run and reads the marker back.  A page that
+    memory.size has made visible belongs to the program: the marker must survive (a zero-fill that runs after the new
+    size has been published — outside the critical section — erases it)."""
+    cases = []
+    for init, maxp, dl in [(1, 4, 1), (2, 5, 2)]:
+        for s in interleavings([3, 4]):
+            cases.append((init, maxp, 1, s, [("g", dl), ("o", init)]))
+    for _ in range(30 if tier == "quick" else 600):
+        base = list("000111") + ["2"] * 4
+        chk.rng.shuffle(base)
+        cases.append((1, 5, 1, "".join(base), [("g", 1), ("g", 1), ("o", 1)]))
+    lines = ["gsched gen %d %d %d %s %s" % (i, m, sh, s, " ".join("s" if k == "o" else a for (k, _), a in zip(ops, op_args(ops))))
+             for i, m, sh, s, ops in cases]
+    model = driver_lines(lines) if have_driver else None
+    lost = None
+    hist.update({"observer_histories": 0, "observer_marker_intact": 0, "observer_not_grown_yet": 0, "observer_marker_lost": 0})
+    for idx, (init, maxp, sh, sched, ops) in enumerate(cases):
+        rc, out, err = gs.run(exe, ["sched", init, maxp, sh, sched] + op_args(ops))
+        hist["observer_histories"] += 1
+        chk.count_case(("observer", init, maxp, sched, tuple(ops)), True,
+                       {"case": f"sched {init} {maxp} {sh} {sched} {' '.join(op_args(ops))}", "real": out} if idx % 40 == 0 else None)
+        if rc != 0 or not out.startswith("ret"):
+            broken.append({"kind": "harness", "msg": f"observer history {sched}: exit {rc} {out[:100]} {err[-100:]}"})
+            continue
+        r = gs.parse_result(out)
+        if model:
+            mr = gs.parse_result(model[idx])
+            same = all(a == b for (k, _), a, b in zip(ops, r["rets"], mr["rets"]) if k != "o") \
+                and (r["pages"], r["size"]) == (mr["pages"], mr["size"])
+            if not same:
+                broken.append({"kind": "correspondence", "msg": f"observer history {init} {maxp} {sched} {op_args(ops)}: real `{out}` model `{model[idx]}`"})
+        for (k, _), v in zip(ops, r["rets"]):
+            if k != "o" or v is None:
+                continue
+            if v == 0:
+                hist["observer_not_grown_yet"] += 1
+            elif v == 0x100 + 0x5a:
+                hist["observer_marker_intact"] += 1
+            else:
+                hist["observer_marker_lost"] += 1
+                if lost is None or len(ops) < len(lost[4]):
+                    lost = (init, maxp, sh, sched, ops, out, v)
+    if lost:
+        init, maxp, sh, sched, ops, out, v = lost
+        chk.violation(
+            "grow-zero-fill-after-publishing-size",
+            f"shared memory ({init} pages, max {maxp}), schedule {sched} of {op_args(ops)}: the observer saw the grown size through "
+            f"memory.size, stored the marker 0x5a into the newest page and later reads {v - 0x100:#x} — the store was erased: "
+            "wasmMemoryGrow zero-fills the new pages AFTER unlocking the mutex that publishes the new size "
+            f"(real header: `{out}`; model obligation: grow_zero_fill_inside_critical_section)",
+            {"harness": "tools/harness/grow_sched.c", "args": ["sched", init, maxp, sh, sched] + op_args(ops), "observed": out,
+             "lost_marker": True, "replay_cmd": "python3 tools/check.py C18 --replay <this file>"}, True)
 
 
 # ----------------------------------------------------------------------------- case generation
@@ -453,6 +517,10 @@ def run(tier):
                  "model_status": status,
                  "replay_cmd": "python3 tools/check.py C18 --replay <this file>"}, True)
 
+        # ---- (a2) grower ∥ observer histories (a store into a page memory.size has made visible must survive)
+        if exe:
+            observer_part(chk, exe, have_driver, tier, broken, hist)
+
         # ---- (b) sequential grows, incl. wrap-around
         scases = seq_cases(chk.rng, tier)
         sreal = []
@@ -590,6 +658,43 @@ def run(tier):
                 rc, o1, e1 = gs.run(texe, ["stress", 3, iters, 0], timeout=300)
                 rc, o2, e2 = gs.run(texe, ["stress", 1, iters, 1], timeout=300)   # ONE grower: any race involves the size reader
                 rc, o3, e3 = gs.run(texe, ["stress", 3, iters, 3], timeout=300)
+                # growers vs plain loads/stores of other threads on a page that existed from the start (they read `data`
+                # without the lock), and vs stores into the newest page memory.size reports
+                rc, o6, e6 = gs.run(texe, ["stress", 3, iters, 0, 2, 0], timeout=300)
+                rc, o7, e7 = gs.run(texe, ["stress", 2, iters, 0, 0, 2], timeout=300)
+                acc = {"growers_vs_old_page_accessors_race": "data race" in e6, "old_result": o6,
+                       "growers_vs_new_page_stores_race": "data race" in e7, "new_result": o7}
+                chk.coverage["tsan_accessors"] = acc
+                chk.count_case(("tsan", "g3a2"), True, None)
+                chk.count_case(("tsan", "g2n2"), True, None)
+                if "data race" in e6:
+                    lines6 = sorted(set(re.findall(r"(\w+) \S*w2c2_base\.h:(\d+)", e6)))[:6]
+                    chk.violation(
+                        "grow-writes-data-of-shared-memory",
+                        "ThreadSanitizer: wasmMemoryGrow on a SHARED memory writes a descriptor field that the loads/stores of "
+                        f"other threads read without the lock ({lines6}): the thread program `3 threads: 3000× memory.grow(1)` ∥ "
+                        "`2 threads: i32.store8 / i32.load8_u on page 0` has a data race on `wasmMemory.data` (model obligation: "
+                        "grow_shared_never_writes_data)",
+                        {"harness": "tools/harness/grow_sched.c (-fsanitize=thread -DGROW_FREE_RUNNING)",
+                         "args": ["stress", 3, iters, 0, 2, 0],
+                         "thread_program": {"growers": "3 × loop { memory.grow(1) }", "accessors": "2 × loop { i32.store8 p0; i32.load8_u p0 }"},
+                         "tsan_excerpt": e6[:1800], "replay_cmd": "python3 tools/check.py C18 --replay <this file>"}, True)
+                if "data race" in e7 and "memset" not in e7 and "data race" not in e6:
+                    chk.violation(
+                        "grow-writes-data-of-shared-memory",
+                        "ThreadSanitizer: data race between wasmMemoryGrow and the i32.store8 of another thread into the newest "
+                        "visible page of a shared memory (no memset involved: a descriptor field read by the store is written by grow)",
+                        {"harness": "tools/harness/grow_sched.c (-fsanitize=thread -DGROW_FREE_RUNNING)",
+                         "args": ["stress", 2, iters, 0, 0, 2], "tsan_excerpt": e7[:1800],
+                         "replay_cmd": "python3 tools/check.py C18 --replay <this file>"}, True)
+                if "data race" in e7 and "memset" in e7:
+                    chk.violation(
+                        "grow-zero-fill-after-publishing-size",
+                        "ThreadSanitizer: a store of another thread into the newest page reported by memory.size races with a "
+                        "memset inside wasmMemoryGrow (zero-fill outside the critical section)",
+                        {"harness": "tools/harness/grow_sched.c (-fsanitize=thread -DGROW_FREE_RUNNING)",
+                         "args": ["stress", 2, iters, 0, 0, 2], "tsan_excerpt": e7[:1800],
+                         "replay_cmd": "python3 tools/check.py C18 --replay <this file>"}, True)
                 races1 = sorted(set(re.findall(r"w2c2_base\.h:(\d+)", e1))) if "data race" in e1 else []
                 size_race = "data race" in e2
                 chk.coverage["tsan"] = {"grow_only_race": "data race" in e1, "grow_only_race_lines": races1[:6],
@@ -697,7 +802,8 @@ def replay(path):
         repo = vlib.copy_repo(os.path.join(d, "repo"))
         inc = os.path.join(repo, "w2c2")
         key = r.get("key")
-        if key in ("memory-size-unlocked-read-race", "grow-descriptor-data-race"):
+        if key in ("memory-size-unlocked-read-race", "grow-descriptor-data-race", "grow-writes-data-of-shared-memory") \
+                or (key == "grow-zero-fill-after-publishing-size" and r.get("args", [""])[0] == "stress"):
             bad = False
             if "module" in r:
                 import opmods
@@ -721,8 +827,16 @@ def replay(path):
         rc, out, err = gs.run(exe, args)
         print(f"replay grow_sched {' '.join(map(str, args))}: `{out}`")
         if args[0] == "sched":
-            ops = [("g", int(a[1:])) if a.startswith("g") else ("s", 0) for a in args[5:]]
+            ops = [(a[0], int(a[1:])) if a[0] in "go" else ("s", 0) for a in args[5:]]
             res = gs.parse_result(out)
+            lostm = [t for t, ((k, _), v) in enumerate(zip(ops, res["rets"])) if k == "o" and v not in (None, 0, 0x15a)]
+            if lostm:
+                print(f"observer {lostm}: the marker stored into a visible page was erased (read back {res['rets'][lostm[0]] - 0x100:#x})")
+                return 1
+            if any(k == "o" for k, _ in ops):
+                print("observer: marker intact / not grown yet")
+                res["rets"] = [None if k == "o" else v for (k, _), v in zip(ops, res["rets"])]   # only the grows are judged below
+                ops = [("s", 0) if k == "o" else (k, v) for k, v in ops]
             if res["held"] is not None:
                 print(f"operation {res['held']} returned with the memory's mutex locked; blocked forever: {res['blocked']}")
                 return 1
